@@ -112,7 +112,8 @@ P("C03", level_text="Theorems for every configuration, limit, filter and byte st
   "one of the six documented ones. The model is compared with the real library on bounded-exhaustive token sequences, mutated and random inputs through nine reader kinds, inputs in "
   "exactly-sized heap blocks under ASan+UBSan; source independence is checked on the implementation directly.",
   level_note="memory safety of the binary is observed by sanitizers, not proved; the 'never past the terminator' clause of zero-terminated readers rests on ASan",
-  suites=lambda tier: [S.JsonAnySuite(cfg=DEF), S.MpDeSuite(cfg=DEF, n=1200 if tier == "quick" else 100000), S.FilterSuite(cfg=DEF, n=2500 if tier == "quick" else 100000)] +
+  suites=lambda tier: [S.JsonAnySuite(cfg=DEF), S.MpDeSuite(cfg=DEF, n=1200 if tier == "quick" else 100000), S.FilterSuite(cfg=DEF, n=2500 if tier == "quick" else 100000),
+                       S.ReuseSuite(cfg=DEF), S.ReuseSuite(cfg=G["tiny2"], n=100 if tier == "quick" else 4000)] +
   ([S.JsonAnySuite(cfg=CFG_ALL, n=200000), S.JsonAnySuite(cfg=CFG_NOUNI, n=100000)] if tier == "thorough" else [S.JsonAnySuite(cfg=CFG_ALL, n=8000)]))
 
 P("C07", level_text="Theorems: MessagePack round trip for every raw-free document within limits (accepted, exact consumption, result = norm d with numerically equal numbers, second "
@@ -209,7 +210,8 @@ P("C05", level_text="Theorems at the slot-pool level for every state reachable u
   "compared with the slot-level model, and the implementation is checked for crashes (ASan/UBSan), leaks at clear(), misuse of the allocator, unreported failures and collateral changes.",
   level_note="document-level statements (no member without key or value, values outside the path unchanged) rest on the fault-schedule correspondence and its oracles, not yet on a theorem; "
   "documents keep their own allocator in these histories (no copy-assignment/swap)",
-  suites=lambda tier: [S.FaultSuite(cfg=G["default"]), S.FaultSuite(cfg=G["tiny1"], nh=60 if tier == "quick" else 3000)] +
+  suites=lambda tier: [S.FaultSuite(cfg=G["default"]), S.FaultSuite(cfg=G["tiny1"], nh=120 if tier == "quick" else 3000), S.FaultSuite(cfg=G["tiny2"], nh=80 if tier == "quick" else 3000),
+                       S.DeserFaultSuite(cfg=G["default"]), S.DeserFaultSuite(cfg=G["tiny2"], n=300 if tier == "quick" else 20000)] +
   ([S.FaultSuite(cfg=G[g], nh=2000) for g in ("id1", "tiny2", "id1c10")] if tier == "thorough" else []),
   partial=["document-level C05_wf / C05_frame"])
 
